@@ -16,7 +16,6 @@ pub struct Rsi<T, V> {
     avg_gain: T,
     avg_loss: T,
     old_ref: T,
-    last_val: T,
     q_vals: VecDeque<T>,
     out: Option<T>,
 }
@@ -36,7 +35,6 @@ where
             avg_gain: T::zero(),
             avg_loss: T::zero(),
             old_ref: T::zero(),
-            last_val: T::zero(),
             q_vals: VecDeque::with_capacity(window_len),
             out: None,
         }
@@ -56,29 +54,28 @@ where
 
         if self.q_vals.is_empty() {
             self.old_ref = val;
-            self.last_val = val;
         }
         let window_len = T::from(self.window_len).expect("can convert");
         if self.q_vals.len() >= self.window_len {
-            // remove old
-            let old_val = *self.q_vals.front().unwrap();
-            let change = old_val - self.old_ref;
-            self.old_ref = old_val;
-            self.q_vals.pop_front();
-            if change > T::zero() {
-                self.avg_gain = self.avg_gain - change / window_len;
-            } else {
-                self.avg_loss = self.avg_loss - change.abs() / window_len;
-            }
+            // remove old, it becomes the reference for the oldest change
+            self.old_ref = self.q_vals.pop_front().unwrap();
         }
         self.q_vals.push_back(val);
 
-        let change = val - self.last_val;
-        self.last_val = val;
-        if change > T::zero() {
-            self.avg_gain = self.avg_gain + change / window_len;
-        } else {
-            self.avg_loss = self.avg_loss + change.abs() / window_len;
+        // Sum the changes over the window afresh. Adding and subtracting on
+        // running sums leaves rounding residue once a large change has left
+        // the window, and a flat window then turns that residue into output.
+        self.avg_gain = T::zero();
+        self.avg_loss = T::zero();
+        let mut prev = self.old_ref;
+        for v in self.q_vals.iter() {
+            let change = *v - prev;
+            prev = *v;
+            if change > T::zero() {
+                self.avg_gain = self.avg_gain + change / window_len;
+            } else {
+                self.avg_loss = self.avg_loss + change.abs() / window_len;
+            }
         }
 
         if self.q_vals.len() < self.window_len {
